@@ -580,9 +580,14 @@ func (h *verifC07) exploreDir(lr *verifLayerRun, job verifDirJob) []verifDirJob 
 	lastLookup := map[string]*verifLookupOut{}
 	adopted := map[string]bool{}
 
-	doReaddir := func() {
-		es, errno := verifReaddir(n)
+	// doReaddir lists through node nn (the directory's primary node, or a fresh un-memoised node of the
+	// same directory: ForeachChild's order differs from call to call).
+	doReaddir := func(nn *node, key string, primary bool) {
+		es, errno := verifReaddir(nn)
 		out.Count("readdir")
+		if !primary {
+			out.Count("readdir-fresh-node")
+		}
 		if errno != 0 {
 			out.Emit("readdir "+key, "eio")
 			h.fail("readdir-failed", where("Readdir")+fmt.Sprintf(": errno %d", int(errno)))
@@ -590,9 +595,11 @@ func (h *verifC07) exploreDir(lr *verifLayerRun, job verifDirJob) []verifDirJob 
 		}
 		out.Emit("readdir "+key, "ok "+verifEntsString(append([]verifEntOut(nil), es...)))
 		if haveList && verifEntsString(append([]verifEntOut(nil), lastList...)) != verifEntsString(append([]verifEntOut(nil), es...)) {
-			h.fail("listing-unstable", where("Readdir")+": two calls returned different listings")
+			h.fail("listing-unstable", where("Readdir")+": two calls (same or fresh node of this directory) returned different listings")
 		}
-		lastList, haveList = es, true
+		if primary {
+			lastList, haveList = es, true
+		}
 		// ---- oracle: the listing is the overlayfs translation of the source directory ----
 		seen := map[string]verifEntOut{}
 		ndot, ndotdot := 0, 0
@@ -981,7 +988,7 @@ func (h *verifC07) exploreDir(lr *verifLayerRun, job verifDirJob) []verifDirJob 
 	for _, o := range sched {
 		switch o.k {
 		case 0:
-			doReaddir()
+			doReaddir(n, key, true)
 		case 1:
 			doLookup(o.name)
 		case 2:
@@ -990,6 +997,16 @@ func (h *verifC07) exploreDir(lr *verifLayerRun, job verifDirJob) []verifDirJob 
 			doListxattr(o.dl)
 		case 4:
 			doGetattr()
+		}
+	}
+	if len(raw) > 12 {
+		// big directory: several fresh, un-memoised nodes of the same directory
+		out.Count("big-dir")
+		for i := 0; i < 6; i++ {
+			fresh := &node{id: n.id, fs: n.fs, attr: n.attr}
+			fk := h.newKey()
+			h.emitNode(lr, fk, fresh, isRoot)
+			doReaddir(fresh, fk, false)
 		}
 	}
 	for _, kn := range lr.kxNames {
@@ -1219,6 +1236,7 @@ func (h *verifC07) genXattrs() map[string]string {
 
 type verifGenOpts struct {
 	stack    bool // explicit parent directories only, domain of the composition oracle
+	big      bool // always add a big directory
 	findings bool // always add a whiteout of a .wh. name / of a landmark name in the root / of "", ".", ".."
 }
 
@@ -1349,6 +1367,37 @@ func (h *verifC07) genLayer(lower map[string]verifRef, o verifGenOpts) []verifEn
 		case 10:
 			if len(regs) > 0 {
 				add(verifEnt{path: verifJoin(dir, pickName(dir)), kind: 'h', target: regs[rnd.Intn(len(regs))]})
+			}
+		}
+	}
+	if o.big || rnd.Intn(4) == 0 {
+		// a big directory (13-80 entries): names that have both a real entry and a whiteout, lone
+		// whiteouts, plain entries (Go's sort.Slice is an insertion sort only up to 12 elements)
+		dir := pickDir()
+		if rnd.Intn(3) != 0 {
+			dir = verifJoin(dir, []string{"big", "B", "m"}[rnd.Intn(3)])
+			add(verifEnt{path: dir, kind: 'd', mode: 0755, xattrs: h.genXattrs()})
+		}
+		if k, ok := typ[dir]; dir == "" || (ok && (k == 'd' || k == 'D')) {
+			total := 13 + rnd.Intn(68)
+			npairs := 3 + rnd.Intn(12)
+			for i := 0; i < total; i++ {
+				nme := fmt.Sprintf("%c%02d", "pqrs"[rnd.Intn(4)], i)
+				switch {
+				case i < npairs: // real X and .wh.X
+					kind := byte('f')
+					if rnd.Intn(4) == 0 {
+						kind = 'l'
+					}
+					if add(verifEnt{path: verifJoin(dir, nme), kind: kind, data: "pair", target: "t", mode: 0644}) {
+						add(verifEnt{path: verifJoin(dir, verifWh+nme), kind: 'f', mode: 0644})
+						i++
+					}
+				case i%7 == 0:
+					add(verifEnt{path: verifJoin(dir, verifWh+nme), kind: 'f', mode: 0644})
+				default:
+					add(verifEnt{path: verifJoin(dir, nme), kind: 'f', data: "x", mode: 0644})
+				}
 			}
 		}
 	}
@@ -1658,7 +1707,32 @@ func verifScenarios() [][]verifEnt {
 		{verifD("both"), verifF("both/a"), verifF(".wh.both")}, // outside the composition domain, still served consistently
 		{verifF(".wh..wh"), verifF(".wh.wh."), verifF("..wh.a"), verifF(".wh"), verifF("x.wh.y")},
 		{},
+		verifBigScenario("big"),
+		verifBigScenario(""),
+		verifBigScenario("a/b"),
 	}
+}
+
+// verifBigScenario: a directory with 51 children: 30 plain files, 10 names that have both a real entry
+// and a whiteout, and a lone whiteout.
+func verifBigScenario(dir string) []verifEnt {
+	var spec []verifEnt
+	for a := dir; a != ""; a, _ = verifParent(a) {
+		spec = append([]verifEnt{verifD(a)}, spec...)
+	}
+	for i := 0; i < 30; i++ {
+		spec = append(spec, verifF(verifJoin(dir, fmt.Sprintf("p%02d", i))))
+	}
+	for i := 0; i < 10; i++ {
+		// whiteout before or after the real entry in the tar, names spread over the sort order
+		x := fmt.Sprintf("%c-both%d", "amz"[i%3], i)
+		if i%2 == 0 {
+			spec = append(spec, verifF(verifJoin(dir, x)), verifF(verifJoin(dir, verifWh+x)))
+		} else {
+			spec = append(spec, verifF(verifJoin(dir, verifWh+x)), verifF(verifJoin(dir, x)))
+		}
+	}
+	return append(spec, verifF(verifJoin(dir, ".wh.gone")))
 }
 
 func verifFindingScenarios() [][]verifEnt {
